@@ -181,9 +181,9 @@ def close_fd_facts(d):
             k = body.find("if(sexp_filenop(x)){")
             if k >= 0:
                 branch = function_body(body[k:], "if(sexp_filenop(x))")
-                pos_mark, pos_fd = branch.find("sexp_fileno_openp(x)=0;"), branch.find("fd=sexp_fileno_fd(x);")
-                if pos_mark >= 0 and pos_fd >= 0 and body.count("returnclose(fd);") == 1:
-                    marks = 1
+                if branch in ("{fd=sexp_fileno_fd(x);sexp_fileno_openp(x)=0;}", "{sexp_fileno_openp(x)=0;fd=sexp_fileno_fd(x);}") \
+                        and body.count("returnclose(fd);") == 1:
+                    marks = 1          # unconditionally: any guard around the assignment is outside the recognised text
     return dict(fn=fn, marks=marks)
 
 
